@@ -122,6 +122,26 @@ theorem C05_update_never_partial (cfg : Cfg) (ep : Endpoint) (last last' : Optio
             simp only [snapshotOf, hnames]
             exact parseTarget_exact _ _
 
+/-- "An inconsistent or incomplete descriptor set produces an error report, never a partial
+    description": whatever the target sent, a delivered registry is consistent at file AND symbol level —
+    unique file names, every import present, no import cycle, no symbol declared twice, every method's
+    input/output type defined in the file or one of its direct imports (`wfFilesB`).  Contrapositive: if
+    the set the target serves for the wanted services is inconsistent in any of these ways, the poll ends
+    in `ReportError`.  (This is the clause the driver judges on every delivered description.) -/
+theorem C05_update_is_consistent (cfg : Cfg) (ep : Endpoint) (last last' : Option Snapshot)
+    (h : Option History) (t : Target) (hno : cfg.onlyServices = false)
+    (he : resolveWithMethod (dedupFiles []) cfg ep last = (h, last', .update t)) :
+    wfFilesB t.files = true := by
+  have hnf := (C05_update_never_partial cfg ep last last' h t hno he).2.2.1
+  unfold newFiles at hnf
+  unfold wfFilesB
+  cases h1 : nodupB (fileNames t.files) <;> simp [h1] at hnf
+  cases h2 : closedB t.files <;> simp [h2] at hnf
+  cases h3 : acyclicB t.files <;> simp [h3] at hnf
+  cases h4 : nodupB (symbols t.files) <;> simp [h4] at hnf
+  cases h5 : typesResolveB t.files <;> simp [h5] at hnf
+  simp
+
 /-- Against a target that only ever sends its own files, a delivered registry is a closed subset of
     the target's files: a needed import the target does not have (missing dependency) can never end
     in a description. -/
